@@ -21,7 +21,7 @@ CONSTANTS
   MaxHold = 0
   Batch = 1
   IgnoreTaints = FALSE
-INVARIANTS Inv_CommittedSurvives Inv_NoDivergence Inv_HWBacked Inv_Nacked Inv_Struct
+INVARIANTS Inv_CommittedSurvives Inv_NoDivergence Inv_HWBacked Inv_Nacked Inv_Struct NoTaint_HWFallbackKeptAlone
 PROPERTIES AcksOK HWMono
 VIEW MCView
 CHECK_DEADLOCK FALSE
